@@ -593,32 +593,39 @@ def run_blocks(ctx):
     r = _REACTOR["r"]
     a0 = r.core.getFirstAssembly(Flags.FUEL)
     refused = []
+    # every way of writing k x 60 degrees in floating point must be accepted (the remainder of rad modulo pi/3
+    # lands just above 0 for some, just below pi/3 for others)
+    forms = [("k*pi/3", lambda k: k * math.pi / 3), ("radians(60k)", lambda k: math.radians(60 * k)),
+             ("k*(pi/3)", lambda k: k * (math.pi / 3))]
     for k in KS:
-        a = copy.deepcopy(a0)
-        pins0 = [b.getPinCoordinates().copy() for b in a if b.spatialGrid is not None]
-        ori0 = [float(b.p.orientation[2]) for b in a]
-        try:
-            with common.quiet():
-                a.rotate(k * math.pi / 3)
-        except ValueError:
-            refused.append(k)
-            continue
-        pins1 = [b.getPinCoordinates() for b in a if b.spatialGrid is not None]
-        for p0, p1 in zip(pins0, pins1):
-            exp = np.array([list(rotxy(p[0], p[1], k)) + [p[2]] for p in p0])
-            if np.abs(p1 - exp).max() > 1e-8:
-                ctx.fail("hexassembly-rotate-pins", "every block of the assembly is rotated by 60k degrees", {"k": k},
-                         observed=float(np.abs(p1 - exp).max()))
-        for o0, b in zip(ori0, a):
-            if (float(b.p.orientation[2]) - o0 - 60 * k) % 360 != 0:
-                ctx.fail("hexassembly-rotate-orientation", "orientation advances by 60k", {"k": k},
-                         observed=float(b.p.orientation[2]))
-        ctx.case(("assembly", k))
+        for fname, form in (forms if ctx.thorough or k % 5 == 0 else forms[:1]):
+            a = copy.deepcopy(a0)
+            pins0 = [b.getPinCoordinates().copy() for b in a if b.spatialGrid is not None]
+            ori0 = [float(b.p.orientation[2]) for b in a]
+            try:
+                with common.quiet():
+                    a.rotate(form(k))
+            except ValueError:
+                refused.append([k, fname])
+                continue
+            pins1 = [b.getPinCoordinates() for b in a if b.spatialGrid is not None]
+            for p0, p1 in zip(pins0, pins1):
+                exp = np.array([list(rotxy(p[0], p[1], k)) + [p[2]] for p in p0])
+                if np.abs(p1 - exp).max() > 1e-8:
+                    ctx.fail("hexassembly-rotate-pins", "every block of the assembly is rotated by 60k degrees", {"k": k},
+                             observed=float(np.abs(p1 - exp).max()))
+            for o0, b in zip(ori0, a):
+                if (float(b.p.orientation[2]) - o0 - 60 * k) % 360 != 0:
+                    ctx.fail("hexassembly-rotate-orientation", "orientation advances by 60k", {"k": k},
+                             observed=float(b.p.orientation[2]))
+            ctx.case(("assembly", k))
     if refused:
         ctx.fail("hexassembly-rotate-refuses-multiple-of-60", "HexAssembly.rotate(k*pi/3) rotates for every integer k",
-                 {"k": refused, "rad": [k * math.pi / 3 for k in refused]}, observed="ValueError",
-                 expected="rotation by 60k degrees", note="rad % (pi/3) lands just below pi/3 for these k")
-    for rad in (0.5, math.pi / 7, 1.0, -0.3):
+                 {"refused": refused[:12], "rad": [k * math.pi / 3 for k, _f in refused[:12]]}, observed="ValueError",
+                 expected="rotation by 60k degrees", note="the float remainder rad % (pi/3) may land just below pi/3 "
+                 "instead of just above 0; both must be accepted (repaired in /repo by 390903c)")
+    for rad in (0.5, math.pi / 7, 1.0, -0.3, math.pi / 6, -math.pi / 2, math.pi / 3 + 1e-6, -math.pi - 1e-6,
+                2 * math.pi / 3 - 1e-7, 5 * math.pi / 3 + 1e-9):
         a = copy.deepcopy(a0)
         before = [block_state(b) for b in a]
         try:
